@@ -18,6 +18,7 @@ CONSTANTS MaxDepth, CK, RF, LC,
           SetArgs,     \* terms assigned as content
           MCodings,    \* codings for Message.encode
           FCalls,      \* set of <<"enc"|"dec", coding, term>>: direct calls of encoding.encode / decode
+          GetStricts,  \* values of `strict` tried for get_content
           MaxOps
 VARIABLES cache, msgs, ops, mon, obs
 vars == <<cache, msgs, ops, mon, obs>>
@@ -159,7 +160,7 @@ FuncCall(fc) ==
 
 Next == \/ \E m \in 1..NMsg, w \in WireSet : Wire(m, w)
         \/ \E m \in 1..NMsg, v \in SetArgs : SetContent(m, v)
-        \/ \E m \in 1..NMsg, s \in BOOLEAN : GetContent(m, s)
+        \/ \E m \in 1..NMsg, s \in GetStricts : GetContent(m, s)
         \/ \E m \in 1..NMsg, s \in BOOLEAN : DecodeMsg(m, s)
         \/ \E m \in 1..NMsg, c \in MCodings : EncodeMsg(m, c)
         \/ \E fc \in FCalls : FuncCall(fc)
